@@ -13,6 +13,9 @@ type Log struct {
 	Removed bool   `json:"removed,omitempty"`
 	// OverP: the uint256 words on L1 are hash+P and root+P (P = felt modulus); juno reduces them.
 	OverP bool `json:"over_p,omitempty"`
+	// Decoy (geth family): 1 = same event emitted by another contract, 2 = another event of the
+	// core contract. A real node does not return them for juno's filter; juno must never see them.
+	Decoy int `json:"decoy,omitempty"`
 }
 
 // decoded is what juno's geth layer must hand to the client for the raw log l.
@@ -47,6 +50,7 @@ func (h *HeadJ) String() string {
 //	sync    : barrier: every sent value consumed and one complete poll with the current height done
 //	suberr  : the subscription reports an error; the next N WatchStateUpdate attempts fail
 //	finfail : the next N FinalisedHeight polls fail
+//	finnotfound : (geth family) the node answers the next N finalized-header queries with null
 type Op struct {
 	Kind string `json:"kind"`
 	Logs []Log  `json:"logs,omitempty"`
@@ -81,7 +85,8 @@ type Case struct {
 	// forwardStateUpdates) is in the loop, fed by an in-process fake L1 JSON-RPC node over a
 	// websocket; the scripted failures above are not used (suberr = the node drops the connection,
 	// finfail = the node fails the finalized-header query).
-	Geth bool `json:"geth,omitempty"`
+	Geth   bool  `json:"geth,omitempty"`
+	Decoys []Log `json:"decoys,omitempty"` // geth family: logs of other contracts / events in the node's history
 
 	Ops []Op `json:"ops"`
 	// Canonical: L2 block numbers grow with (L1 block, delivery order) among never-removed
